@@ -5,6 +5,7 @@ A graph is par: list (index v-1) of sorted parent lists over variables 1..N.  Va
 Realisation r selects the families:
   r = 0  all Gaussian: mean = sum of fixed matrices applied to the mean-parents, isotropic cov = c + |q|^2 of the scale-parent
   r = 1  mixed: Gamma / GMRF roots, Laplace, LMRF, GMRF, Gamma children, Gaussian around a non-linear cuqi Model
+  r = 2  all Gaussian, every parent through ONE mean callable of len(parents) arguments (staged partial conditioning)
 """
 import math
 import numpy as np
@@ -51,7 +52,9 @@ class Factor:
         P = self.parents
         self.family = "Gaussian"
         self.mean_par, self.scale_par = P, None
-        if r == 0:
+        if r == 2:
+            pass          # all parents enter through ONE callable (the mean) with len(P) arguments; constant covariance
+        elif r == 0:
             if len(P) >= 2 or (len(P) == 1 and v % 2 == 1):
                 self.mean_par, self.scale_par = P[:-1], P[-1]
         else:
